@@ -233,6 +233,22 @@ Proof.
     apply (Permutation_in m1 HP). exact In1.
 Qed.
 
+(* Monotonicity in the candidate set: enlarging the candidate list (in any order, anywhere in the list) can only
+   improve the statistic of the selected candidate, and cannot turn a selection into "nothing selected". *)
+Theorem C05_more_candidates_never_worse : forall cand (try_fit4 : cand -> outcome) l1 l2 m1 k1,
+  incl l1 l2 ->
+  gen_select_univariate cand try_fit4 l1 = FreshInstance m1 -> try_fit4 m1 = Ks k1 ->
+  exists m2 k2, gen_select_univariate cand try_fit4 l2 = FreshInstance m2 /\ try_fit4 m2 = Ks k2 /\ k2 <= k1.
+Proof.
+  intros cand try_fit4 l1 l2 m1 k1 Hincl H1 Hk1.
+  assert (In1 : In m1 l1).
+  { destruct (C05_argmin cand try_fit4 l1 m1 H1) as [i [k [Hn _]]]. exact (nth_error_In l1 i Hn). }
+  destruct (C05_selects_when_possible cand try_fit4 l2 m1 k1 (Hincl m1 In1) Hk1) as [m2 H2].
+  destruct (C05_argmin cand try_fit4 l2 m2 H2) as [i [k2 [_ [Hk2 _]]]].
+  exists m2, k2. split; [exact H2|]. split; [exact Hk2|].
+  exact (C05_selected_le_all cand try_fit4 l2 m2 k2 m1 k1 H2 Hk2 (Hincl m1 In1) Hk1).
+Qed.
+
 (* non-vacuity: two orderings of three candidates with a tie select different candidates with equal statistics *)
 Example C05_demo_order :
   let f := fun m : nat => match m with 0%nat => Ks (1#2) | 1%nat => Ks (1#4) | 2%nat => Ks (2#8) | _ => Raised end in
@@ -461,6 +477,7 @@ Print Assumptions C05_fit_ok.
 Print Assumptions C05_skips_failures.
 Print Assumptions C05_none_order_independent.
 Print Assumptions C05_min_ks_order_independent.
+Print Assumptions C05_more_candidates_never_worse.
 Print Assumptions C05_tree_is_repo_tree.
 Print Assumptions C05_candidate_lists.
 Print Assumptions C05_filters_sound.
